@@ -125,6 +125,8 @@ def main():
             f"{len(spurious)} solver model(s) did not reproduce on the real code, e.g. {spurious[0]['label']}: "
             f"{spurious[0].get('replay_status')} {spurious[0].get('detail')}"
         )
+    if agg.xcheck_bad:
+        harness_errors.append(f"second solver disagrees with z3 5.1 on a dumped obligation: {agg.xcheck_bad[0]}")
     want = set(getattr(mod, "EXPECTED_LABELS", []))
     missing = sorted(l for l in want if l not in agg.obl)
     if missing and not reproduced and not agg.incomplete:
@@ -177,6 +179,7 @@ def main():
             "paths_per_configuration": dict(sorted(agg.per_cfg.items())[:60]),
             "paths_cut": agg.aborts,
             "solver": "z3 " + __import__("z3").get_version_string(),
+            "second_solver_crosscheck": agg.xcheck,
             "solver_calls": agg.solver_calls,
             "solver_time_s": round(agg.solver_time, 2),
             "library_time_s": round(agg.lib_time, 2),
